@@ -919,3 +919,21 @@ func constStrObj(c *Ctx, pkg, name string) string {
 	}
 	return ""
 }
+
+// isParamCellLoad: v is a load of the spill cell of parameter p.
+func isParamCellLoad(c *Ctx, v ssa.Value, p *ssa.Parameter) bool {
+	ld, ok := strip2(v).(*ssa.UnOp)
+	if !ok || ld.Op != token.MUL {
+		return false
+	}
+	al, ok := ld.X.(*ssa.Alloc)
+	if !ok {
+		return false
+	}
+	for _, r := range *al.Referrers() {
+		if st, isSt := r.(*ssa.Store); isSt && st.Addr == ssa.Value(al) && st.Val == ssa.Value(p) {
+			return true
+		}
+	}
+	return false
+}
